@@ -10,12 +10,13 @@ import (
 
 // Node is one explored store (a canonical-log or canonical-graph class; see KeyFn of each check).
 type Node struct {
-	Store core.Store
-	Key   string
-	Path  []core.Req // real commands that led here from the root store
-	Depth int
-	Aux   interface{} // whatever KeyFn computed along with the key (e.g. the observation)
-	N     int64       // scripted-rand counter: reads consumed along Path; ids are never re-issued along a path
+	Store  core.Store
+	Key    string
+	Path   []core.Req // real commands that led here from the root store
+	Depth  int
+	Aux    interface{} // whatever KeyFn computed along with the key (e.g. the observation)
+	Parent *Node
+	N      int64 // scripted-rand counter: reads consumed along Path; ids are never re-issued along a path
 }
 
 func (n *Node) Shell() []string {
@@ -143,7 +144,7 @@ func (b *BFS) Run() {
 			}
 			rel := j.req
 			rel.RandBase = req.RandBase // replays must hand out the same ids
-			nn := &Node{Store: after, Key: k, Aux: aux, N: j.n.N + int64(res.Reads), Depth: depth + 1, Path: append(append([]core.Req{}, j.n.Path...), rel)}
+			nn := &Node{Store: after, Key: k, Aux: aux, Parent: j.n, N: j.n.N + int64(res.Reads), Depth: depth + 1, Path: append(append([]core.Req{}, j.n.Path...), rel)}
 			seen[k] = nn
 			next = append(next, nn)
 			mu.Unlock()
